@@ -46,8 +46,17 @@ func VerifC02ChannelStep() {
 	ch.Skipped = vsymBool("skipped")
 	vassume(c02Inv(ch))
 	wasSkipped := ch.Skipped
-	op := vchoose("op", 4)
+	op := vchoose("op", 5)
 	switch op {
+	case 4: // restore from a checkpoint: a fresh channel loaded from this state decides and hands out the same
+		fresh := dagChannelBuilder([]string{"a", "b"}, []string{"a", "d"}, func() any { return map[string]any(nil) }, nil).(*dagChannel)
+		vassert(fresh.load(ch) == nil, "load succeeds")
+		vassert(fresh.Skipped == wasSkipped && fresh.ControlPredecessors["a"] == sa && fresh.ControlPredecessors["b"] == sb &&
+			fresh.DataPredecessors["a"] == bool(da) && fresh.DataPredecessors["d"] == bool(dd) && len(fresh.Values) == len(ch.Values),
+			"a channel restored from a checkpoint carries the complete trigger state (predecessor states, reported flags, skipped flag, values)")
+		wantReady := !wasSkipped && sa != dependencyStateWaiting && sb != dependencyStateWaiting && bool(da) && bool(dd)
+		_, ready, err := fresh.get(false)
+		vassert(err == nil && ready == wantReady, "a restored channel is ready exactly when the saved one was")
 	case 0: // reportValues with an arbitrary subset of {a, d, stranger}
 		ins := map[string]any{}
 		ra, rd, rs := vsymBool("ra"), vsymBool("rd"), vsymBool("rs")
